@@ -394,6 +394,8 @@ def r1_support(rep, w):
     c = w.yarel
     r = rep.rule('R1s', 'interned strings are immortal: single constructor, every new string is moved into '
                  'the intern table, no entry is ever dropped', floor=5)
+    import roles
+    SS = roles.module_of(w, 'ObjStringStore') + '::ObjStringStore'
     new = 'yarel::object::ObjString::new'
     cs = callers_of(w, new)
     r.check(len(cs) == 1 and cs[0][0].path == 'yarel::vm::Vm::new_gc_obj_string', 'ObjString::new callers',
@@ -405,15 +407,14 @@ def r1_support(rep, w):
     # the Root created in new_gc_obj_string is moved into string_store.insert on every path from creation
     f = w.require_fn('yarel::vm::Vm::new_gc_obj_string', 'C01')
     alloc = [bi for bi, t in f.calls() if callee_name(t) == 'yarel::memory::Root::<T>::new']
-    ins = [bi for bi, t in f.calls() if callee_name(t) == 'yarel::vm::string_store::ObjStringStore::insert']
+    ins = [bi for bi, t in f.calls() if callee_name(t) == SS + '::insert']
     okp = bool(alloc) and bool(ins) and all(must_pass(f, a, set(ins)) for a in alloc)
     r.check(okp, 'new_gc_obj_string: Root -> string_store.insert',
             'a path from the string allocation to return does not pass string_store.insert', f.loc())
     # who may write ObjStringStore.entries
-    ws = sorted({x[0].path for x in field_writers(w, 'yarel::vm::string_store::ObjStringStore', 'entries')})
-    allowed = {'yarel::vm::string_store::ObjStringStore::adjust_capacity',
-               'yarel::<vm::string_store::ObjStringStore as std::default::Default>::default',
-               'yarel::<vm::string_store::ObjStringStore as std::clone::Clone>::clone'}
+    ws = sorted({x[0].path for x in field_writers(w, SS, 'entries')})
+    allowed = {SS + '::adjust_capacity', roles.impl_path(w, 'ObjStringStore', 'std::default::Default') + '::default',
+               roles.impl_path(w, 'ObjStringStore', 'std::clone::Clone') + '::clone'}
     r.check(set(ws) <= allowed, 'ObjStringStore.entries writers', 'unexpected writer of the intern table: %s' % sorted(set(ws) - allowed))
     # no removal API is called on entries: calls on a receiver of type Vec<Option<Root<ObjString>>> are limited
     bad = []
